@@ -83,6 +83,8 @@ def run(rep, br, proofs, rng, tier):
         if c["args"][1] == "delay": stats["free_running"] += 1
         stats["max_ms"] = max(stats["max_ms"], ms or 0)
         if o == "aborted": stats["aborted"] += 1
+        elif o.startswith("rerun:"):
+            fails.append((c["line"], "after Abort at %s (scenario %s) made Run return aborted, %s" % (c["args"][1] + "#" + c["args"][2], scen, o[6:].replace("_", " "))))
         else:
             what = "Abort" if scen not in EVAL else "context cancellation"
             fails.append((c["line"], "%s at %s%s (scenario %s): Run %s; points passed: %s" % (
@@ -102,7 +104,7 @@ def run(rep, br, proofs, rng, tier):
             rep.violation({"property": "C09", "kind": "correspondence", "why": why, "case": line}, found=False)
     rep.coverage.update({
         "evaluations": len(cases) + len(mcases) + len(ocases), "distinct_nontrivial": stats["aborted"],
-        "rule": "every placement of Abort's two actions (flag store, abort of registered children) against the protocol points of a run (Run entry/reset, script running, Invoker acquire / registered / aborted-check, child Run entry/reset, child running, second invocation on the same child, after the callback) for scripts that loop forever in the root VM, in a pooled child VM (strings.Map), in a child VM kept by an Invoker without Acquire across three invocations, after a callback and in a nested child; context cancellation at every point of Eval.Run including before Run's reset; free-running aborts at random delays; each schedule forced through the verif hooks, Run must return aborted within 1.5 s; modelled schedules compared with the Coq protocol model; non-trivial = schedules on which Run returned aborted",
+        "rule": "every placement of Abort's two actions (flag store, abort of registered children) against the protocol points of a run (Run entry/reset, script running, Invoker acquire / registered / aborted-check, child Run entry/reset, child running, second invocation on the same child, after the callback) for scripts that loop forever in the root VM, in a pooled child VM (strings.Map), in a child VM kept by an Invoker without Acquire across three invocations, after a callback and in a nested child; context cancellation at every point of Eval.Run including before Run's reset; free-running aborts at random delays; each schedule forced through the verif hooks, Run must return aborted within 1.5 s, and afterwards a script with pooled callbacks must run normally on the aborted VM and on a new VM (three rounds); modelled schedules compared with the Coq protocol model; non-trivial = schedules on which Run returned aborted",
         "samples": [cases[0]["line"], cases[len(cases)//2]["line"], cases[-1]["line"]],
         "stats": stats, "traces": traces, "disagreements": len(dis), "oracle_failures": len(fails)})
 
